@@ -251,10 +251,11 @@ Proof.
   destruct (closed s).
   { inv_some. destruct I as [I_alloc_le0 I_alloc_sorted0 I_tab_st0 I_st_tab0 I_tab_nodup0 I_st_alloc0 I_good0 I_resp_alloc0 I_loop0]. constructor; simpl; auto.
     intros h' ep' j c' p' H'. apply Hl in H'; [|discriminate]. destruct H' as [H' _]. eauto. }
-  destruct (Nat.eqb ep (epoch s)).
-  2:{ inv_some. destruct I as [I_alloc_le0 I_alloc_sorted0 I_tab_st0 I_st_tab0 I_tab_nodup0 I_st_alloc0 I_good0 I_resp_alloc0 I_loop0]. constructor; simpl; auto.
-      intros h' ep' j c' p' H'. apply Hl in H'; [|discriminate]. destruct H' as [H' _]. eauto. }
-  destruct (fail_pending h (tab s) (ent s)) as [t' f'] eqn:EF. inv_some.
+  destruct (fail_pending h (tab s) (ent s)) as [t' f'] eqn:EF.
+  assert (Hboth : exists l' e' cl, (forall ep i c p, l' <> LLoaded ep i c p) /\
+            s' = mkState (next_id s) t' f' (updl (loops s) h l') e' cl (outdated s) (alloc s)).
+  { destruct (Nat.eqb ep (epoch s)); inv_some; do 3 eexists; (split; [|reflexivity]); discriminate. }
+  clear H. destruct Hboth as (l' & e' & cl & Hl' & ->).
   pose proof (tab_callers_nodup s I) as NDc.
   destruct (fail_pending_spec _ _ _ _ _ NDc EF) as (A & B & C).
   pose proof (fail_pending_host _ _ _ _ _ NDc EF) as HH.
@@ -287,7 +288,7 @@ Proof.
     destruct (in_dec Nat.eq_dec c' (map snd (tab s))) as [Hin|Hn]; [|rewrite C in H; eauto; tauto].
     destruct (Nat.eq_dec (e_host (ent s c')) h) as [E|N]; [|rewrite C in H; eauto; tauto].
     rewrite B in H; auto. simpl in H. apply in_app_or in H. destruct H as [H|[H|[]]]; [eauto | discriminate].
-  - intros h' ep' j c' p' H'. apply Hl in H'; [|discriminate]. destruct H' as [H' Hne].
+  - intros h' ep' j c' p' H'. apply Hl in H'; [|exact Hl']. destruct H' as [H' Hne].
     destruct (I_loop0 _ _ _ _ _ H') as (A' & B' & C').
     assert (Hc : f' c' = ent s c') by (apply C; intros [_ E]; congruence).
     repeat split; auto; [|now rewrite Hc].
